@@ -5,11 +5,12 @@ import HvLat.Laws.VecB
 import HvLat.Laws.MapB
 import HvLat.Laws.DomPair
 import HvLat.Laws.Tri
+import HvLat.Laws.LeafI
 
 namespace HvLat
 
 theorem okA_of_okB : ∀ t, okB t = true → okA t = true
-  | .maxN _, _ | .minN _, _ | .maxB, _ | .minB, _ | .unit, _ | .conflict, _ | .set, _ => rfl
+  | .maxN _, _ | .minN _, _ | .maxI _, _ | .minI _, _ | .maxB, _ | .minB, _ | .unit, _ | .conflict, _ | .set, _ => rfl
   | .map v, h => by simp only [okB, Bool.and_eq_true] at h; simpa [okA] using okA_of_okB v h.2
   | .withBot v, h => by simp only [okB, Bool.and_eq_true] at h; simpa [okA] using okA_of_okB v h.2
   | .withTop v, h => by simp only [okB] at h; simpa [okA] using okA_of_okB v h
@@ -27,6 +28,8 @@ theorem okA_of_okB : ∀ t, okB t = true → okA t = true
 theorem wf_inh : ∀ t : LTy, ∃ a, (sem t).wf a
   | .maxN b => ⟨(0 : Nat), Nat.zero_le _⟩
   | .minN b => ⟨(0 : Nat), Nat.zero_le _⟩
+  | .maxI h => ⟨(0 : Int), by simp [sem, Sem.boundedI]; omega⟩
+  | .minI h => ⟨(0 : Int), by simp [sem, Sem.boundedI]; omega⟩
   | .maxB => ⟨true, trivial⟩
   | .minB => ⟨true, trivial⟩
   | .unit => ⟨(), trivial⟩
@@ -71,6 +74,10 @@ theorem nondeg_sound : ∀ t, nondeg t = true → Nondeg (lat t) (sem t)
   | .maxN b, h => ⟨(1 : Nat), by simp [nondeg] at h; exact h, rfl⟩
   | .minN b, h => ⟨(0 : Nat), Nat.zero_le _, by
       simp [nondeg] at h; show ((0 : Nat) == b) = false; simp; omega⟩
+  | .maxI h, _ => ⟨(0 : Int), by simp [sem, Sem.boundedI]; omega, by
+      show ((0 : Int) == -((h : Int) + 1)) = false; simp <;> omega⟩
+  | .minI h, _ => ⟨(-1 : Int), by simp [sem, Sem.boundedI]; omega, by
+      show ((-1 : Int) == (h : Int)) = false; simp <;> omega⟩
   | .maxB, _ => ⟨true, trivial, rfl⟩
   | .minB, _ => ⟨false, trivial, rfl⟩
   | .unit, h => by simp [nondeg] at h
@@ -135,6 +142,8 @@ theorem lawful_all : ∀ t : LTy,
     (okB t = true → total t = true → Total (lat t) (sem t))
   | .maxN b => ⟨fun _ => lawfulA_maxN b, fun _ => lawfulB_maxN b, fun _ _ a c _ _ => by simp [lat, Lat.maxN]⟩
   | .minN b => ⟨fun _ => lawfulA_minN b, fun _ => lawfulB_minN b, fun _ _ a c _ _ => by simp [lat, Lat.minN]⟩
+  | .maxI h => ⟨fun _ => lawfulA_maxI h, fun _ => lawfulB_maxI h, fun _ _ a c _ _ => by simp [lat, Lat.maxI]⟩
+  | .minI h => ⟨fun _ => lawfulA_minI h, fun _ => lawfulB_minI h, fun _ _ a c _ _ => by simp [lat, Lat.minI]⟩
   | .maxB => ⟨fun _ => lawfulA_maxB, fun _ => lawfulB_maxB, fun _ _ a c _ _ => by simp [lat, Lat.maxB]⟩
   | .minB => ⟨fun _ => lawfulA_minB, fun _ => lawfulB_minB, fun _ _ a c _ _ => by simp [lat, Lat.minB]⟩
   | .unit => ⟨fun _ => lawfulA_unit, fun _ => lawfulB_unit, fun _ _ a c _ _ => by simp [lat, Lat.unit]⟩
